@@ -85,6 +85,7 @@ def check_case(case, rec):
             if (case.get("ext") or "").lower() == "raw":
                 classes.add("raw_region_files")
         nblocks_ = len(run.src.handed)
+        nwf_ = len(getattr(run, "wf_calls", None) or [])
         cwd_ = os.getcwd()
         try:
             if case.get("relative"):
@@ -94,7 +95,7 @@ def check_case(case, rec):
             os.chdir(cwd_)
         classes.add("files_still_there_after_the_workers_are_gone")
         rec.note(case, nt, classes, out={"detections": len(exp), "blocks": nblocks_,
-                                         "writeframes": len(getattr(run, "wf_calls", []))})
+                                         "writeframes": nwf_})
     finally:
         pipeline.cleanup(run)
 
